@@ -43,7 +43,7 @@ Record c11case := mk_c11case {
   c_strings : list sobs;
   c_levels : list (nat * list ostr);   (* complete MarkovCracker output of some levels, in order *)
   c_pws : list ostr;               (* the valid training passwords in file order *)
-  c_counts : list (option nat * nat);  (* omen_levels_count of pass 3 *)
+  c_counts : list (option nat * N);    (* omen_levels_count of pass 3 *)
   c_decoded_ok : bool;             (* the scorer's codec gives back the written text *)
   c_sbreaks : list N;              (* line ends of the scorer's reader *)
   c_breaks : list N;               (* str.splitlines characters (Consts_gen.guesser_linebreaks) *)
@@ -65,10 +65,15 @@ Definition check_string (T : ttab) (Sc : option scorer) (G : option omen) (o : s
   | _, None => false
   end.
 
-Definition check_counts (T : ttab) (pws : list ostr) (obs : list (option nat * nat)) : bool :=
+(* the training passwords are written run-length encoded (a list of 100k
+   repetitions is not written out); expansion gives the list in file order *)
+Definition expand_pws (l : list (ostr * N)) : list ostr :=
+  flat_map (fun pn => N.iter (snd pn) (cons (fst pn)) []) l.
+
+Definition check_counts (T : ttab) (pws : list ostr) (obs : list (option nat * N)) : bool :=
   let m := levels_count T pws in
   Nat.eqb (length m) (length obs) &&
-  forallb (fun e => Nat.eqb (count_at m (fst e)) (snd e)) obs.
+  forallb (fun e => N.eqb (N.of_nat (count_at m (fst e))) (snd e)) obs.
 
 (* 0 = all good; otherwise the number of the first failing sub-check *)
 Definition check_c11 (c : c11case) : nat :=
